@@ -4,6 +4,7 @@ import Ark.Props.C08
 import Ark.Props.C09World
 import Ark.Props.C09Batch
 import Ark.Props.C08Rel
+import Ark.Props.C08Xchg
 
 namespace Ark.Props.C09
 open Ark
@@ -108,6 +109,16 @@ theorem rel_removeEntity_rel_sees : type_of% @Ark.Props.C08Rel.removeEntity_rel_
 
 /-- all records of one round are functions of one world -/
 theorem rel_round_log_blind : type_of% @Ark.Props.C08Rel.round_log_blind := @Ark.Props.C08Rel.round_log_blind
+
+
+
+/-! ### What the callbacks of Exchange observe, with relations (Props/C08Xchg) -/
+
+/-- Exchange: both removal rounds run on ONE world — locked, every entity with its components, values, targets and liveness as before the call —, both addition rounds on ONE world after the move (typed paths: values written; Unsafe: added components still zero), in the final lock state -/
+theorem xrel_exchange_sees : type_of% @Ark.Props.C08Xchg.exchange_sees := @Ark.Props.C08Xchg.exchange_sees
+
+/-- the lock taken for the removal rounds is released before the move -/
+theorem xrel_exchange_unlocked_after : type_of% @Ark.Props.C08Xchg.exchange_unlocked_after := @Ark.Props.C08Xchg.exchange_unlocked_after
 
 
 end Ark.Props.C09
